@@ -124,7 +124,22 @@ def min_angle_and_length(t):
     return amin, lmin
 
 
-def make_tissue(seed, ncells):
+def make_ragged(t, rng, frac):
+    """Remove a fraction of the border cells one at a time, keeping the tissue edge-connected and pinch-free (only
+    border cells are removed, so no holes appear): ragged outline, bud cells, border-to-border interfaces."""
+    n_remove = int(round(frac * len(t.cells)))
+    for _ in range(n_remove):
+        border = sorted(c for c in t.cells if any(len(t.ridge_cells(ri)) == 1 for ri, _ in t.cells[c]))
+        if len(t.cells) <= 3 or not border:
+            break
+        c = border[int(rng.integers(0, len(border)))]
+        t2 = t.subtissue([x for x in t.cells if x != c])
+        if len(t2.cell_adjacency_components()) == 1 and not t2.pinch_junctions():
+            t = t2
+    return t
+
+
+def make_tissue(seed, ncells, ragged=0.0):
     """Well-shaped Voronoi tissue in pixel units (angles > 25 deg, ridges > 8 px), or None."""
     rng = T.PRNG(seed)
     px = float(rng.uniform(35, 90))
@@ -141,6 +156,8 @@ def make_tissue(seed, ncells):
         if len(t.cells) < 2:
             return None
         t = T.trim_cells(t, ncells, rng)
+        if ragged > 0:
+            t = make_ragged(t, rng, ragged)
         a, l = min_angle_and_length(t)
         if a > math.radians(25) and l > 8.0:
             return t, px
@@ -173,10 +190,10 @@ def rasterise(t, margin=4):
     return fg, pix, (x0 - margin, y0 - margin)
 
 
-def make_image(seed, ncells):
+def make_image(seed, ncells, ragged=0.0):
     """Returns dict(array uint8 with a 1-px margin added for the parser's crop, fg (cropped view), tissue, labels,
     regions) or None when the image preconditions are not met (counted by the caller)."""
-    mt = make_tissue(seed, ncells)
+    mt = make_tissue(seed, ncells, ragged)
     if mt is None:
         return None
     t, px = mt
